@@ -94,6 +94,10 @@ def configure(cfg):
     COUNTERS["paths"] = 0
     del SAMPLES[:]
     stubs.reset_caches()
+    if cfg.get("other"):
+        _setup_other()
+    global MAXP
+    MAXP = 4 if cfg["tier"] == "quick" else 6
 
 
 def _fail(msg):
@@ -428,4 +432,158 @@ WARM.update({
     "h_traverse": lambda cfg: [([],), ([1],), ([1, 2, 3],), ([1, 2, 3, 4, 5],), ([1, 2, 3, 4, 5, 6, 7],)],
     "r_traverse": lambda cfg: [([15],)],
     "h_traverse_from": lambda cfg: [([1, 2, 3, 4], 1), ([1, 2, 3, 4, 5, 6], 3), ([], 0)],
+})
+
+
+# ------------------------------------------------------------------------------- C03: proofs
+OTHER = None      # (model2, state2) of a second trie, for foreign nodes / foreign roots
+PROOF_QS: list = []
+
+
+def _setup_other():
+    global OTHER, PROOF_QS
+    fam = family_for(CFG)
+    m2 = dict(fam[(CFG["mi"] * 7 + 5) % len(fam)])
+    if m2 == MODEL:
+        m2 = dict(fam[(CFG["mi"] * 7 + 6) % len(fam)])
+    OTHER = (m2, hc.canonical_state(m2))
+    qs = set(MODEL)
+    for k in list(qs):
+        if k:
+            qs.add(k[:-1])
+        qs.add(k + b"\x00")
+    qs |= set(list(m2)[:2])
+    qs.add(b"\x77")
+    PROOF_QS = sorted(qs)
+
+
+def h_proof(q: bytes) -> bool:
+    """
+    completeness: get_from_proof(root, q, get_proof(q)) == get(q) == contents, proof nodes lie on q's path
+    pre: len(q) <= CFG["maxlen"]
+    post: _
+    """
+    stubs.reset_caches()
+    t, _db = fresh_trie()
+    root = STATE[0]
+    try:
+        proof = t.get_proof(q)
+        val = HexaryTrie.get_from_proof(root, q, proof)
+        direct = t.get(q)
+    except Exception as e:
+        return _fail(f"get_proof / get_from_proof raised {type(e).__name__}: {e}")
+    exp = spec_get(q)
+    if val != exp or direct != exp:
+        return _fail(f"get_from_proof returned {val!r}, get {direct!r}, contents say {exp!r}")
+    route = mpt.lookup_route(TREE, mpt.nibbles_of(q))
+    allowed = [_norm_raw(mpt.structure(n)) for (_p, n) in route]
+    for node in proof:
+        if _norm_raw(node) not in allowed:
+            return _fail(f"get_proof returned a node that is not on the key's path: {_norm_raw(node)!r}")
+    COUNTERS["paths"] += 1
+    if exp == b"" and len(q) > 0:
+        COUNTERS["nontrivial"] += 1
+    if len(SAMPLES) < 2:
+        SAMPLES.append({"contents": [k.hex() for k, _ in ITEMS], "key": concrete(q).hex(), "proof_len": len(proof)})
+    return True
+
+
+def r_proof(q: bytes) -> bool:
+    """
+    reachability twin: proof of an absent key whose path ends at a branch or inside an extension / leaf
+    pre: len(q) <= CFG["maxlen"]
+    post: _
+    """
+    ok = h_proof(q)
+    if ok and spec_get(q) == b"" and _starts_any(mpt.nibbles_of(q)) and len(q) > 0:
+        return False
+    return ok
+
+
+MAXP = 4      # positions / withheld-subset bits considered (quick 4, thorough 6 = longest proof in the family)
+
+
+def _pre_forge(qi, kind, a, mask, other_root):
+    if not (0 <= qi < len(PROOF_QS) and 0 <= kind <= 3 and 0 <= a < MAXP and 0 <= mask < 2 ** MAXP):
+        return False
+    if kind == 0:
+        return a == 0                        # withhold-only: every subset
+    return mask in (0, 1, 2, 4, 8, 16, 32)   # structural corruption + at most one withheld node
+
+
+def h_forge(qi: int, kind: int, a: int, mask: int, other_root: bool) -> bool:
+    """
+    soundness: a corrupted node list never proves a value the trie with the claimed root does not hold
+    pre: _pre_forge(qi, kind, a, mask, other_root)
+    post: _
+    """
+    from vf.xutil import notrace, pick
+    qi, kind, a, mask = pick(qi, len(PROOF_QS)), pick(kind, 4), pick(a, MAXP), pick(mask, 2 ** MAXP)
+    other_root = bool(other_root)
+    with notrace():
+        return _forge_concrete(qi, kind, a, mask, other_root)
+
+
+def _forge_concrete(qi, kind, a, mask, other_root):
+    from trie.exceptions import BadTrieProof
+    stubs.reset_caches()
+    q = PROOF_QS[qi]
+    t, _db = fresh_trie()
+    m2, (root2, db2, _rc2) = OTHER
+    t2 = HexaryTrie(dict(db2), root2)
+    proof = list(t.get_proof(q))
+    n = len(proof)
+    foreign = list(t2.get_proof(q)) or [[b"\x20", b"zz"]]
+    if kind == 1 and n >= 2:                      # swap two neighbours
+        i = a % (n - 1)
+        proof[i], proof[i + 1] = proof[i + 1], proof[i]
+    elif kind == 2 and n >= 1:                    # duplicate one node (at the end)
+        proof.append(proof[a % n])
+    elif kind == 3 and n >= 1:                    # node taken from the proof of the same key in another trie
+        proof[a % n] = foreign[a % len(foreign)]
+    proof = [nd for i, nd in enumerate(proof) if not (mask >> i) & 1]      # withhold any subset
+    if other_root:
+        root, model = root2, m2
+        tree = mpt.tree_of(m2)
+    else:
+        root, model = STATE[0], MODEL
+        tree = TREE
+    exp = model.get(q, b"")
+    present = [_norm_raw(x) for x in proof]
+    route = mpt.lookup_route(tree, mpt.nibbles_of(q))
+    withheld = any((i == 0 or mpt.is_hashed(nd)) and _norm_raw(mpt.structure(nd)) not in present for i, (_p, nd) in enumerate(route))
+    try:
+        val = HexaryTrie.get_from_proof(root, q, tuple(proof))
+    except BadTrieProof:
+        COUNTERS["paths"] += 1
+        COUNTERS["nontrivial"] += 1
+        return True
+    except Exception as e:
+        return _fail(f"get_from_proof raised {type(e).__name__} (not BadTrieProof) on a corrupted proof: {e}")
+    if val != exp:
+        return _fail(f"corrupted proof (kind {kind}, a {a}, mask {mask:b}, other_root {other_root}) for key {q.hex()} proved {val!r}; the trie with that root holds {exp!r}")
+    if withheld:
+        return _fail(f"a hashed node on the path of key {q.hex()} was withheld (kind {kind}, mask {mask:b}, other_root {other_root}) yet get_from_proof returned {val!r} instead of raising BadTrieProof")
+    COUNTERS["paths"] += 1
+    return True
+
+
+def r_forge(qi: int, kind: int, a: int, mask: int, other_root: bool) -> bool:
+    """
+    reachability twin: a proof with a withheld hashed node is rejected with BadTrieProof
+    pre: _pre_forge(qi, kind, a, mask, other_root)
+    post: _
+    """
+    before = COUNTERS["nontrivial"]
+    ok = h_forge(qi, kind, a, mask, other_root)
+    if ok and COUNTERS["nontrivial"] > before and mask != 0:
+        return False
+    return ok
+
+
+WARM.update({
+    "h_proof": lambda cfg: [(b"\x12",), (b"",), (b"\x12\x34",), (b"\x12\x34\x56",)],
+    "r_proof": lambda cfg: [(b"\xff",)],
+    "h_forge": lambda cfg: [(0, 0, 0, 0, False), (1, 3, 0, 1, True)],
+    "r_forge": lambda cfg: [(0, 0, 0, 0, False)],
 })
